@@ -33,14 +33,15 @@
 (***************************************************************************)
 EXTENDS Naturals, Sequences, FiniteSets, TLC, Json
 
-CONSTANTS Size,   \* "quick" | "thorough"
+CONSTANTS Size,   \* "quick" | "thorough" | "tiny" (sensitivity runs)
           Dev     \* deviations of the transcription (sensitivity of the oracle)
 
 DevNames == {"DevExemptByPrefix",      \* a path is exempt when it starts with an exempt path
              "DevGateBeforeAuth",      \* disabled groups answer 404 before the token is checked
              "DevFlagIgnored"}         \* the dashboard flag is not consulted
 ASSUME Dev \subseteq DevNames
-Quick == Size = "quick"
+Quick == Size \in {"quick", "tiny"}
+Tiny  == Size = "tiny"
 
 (* ---- routes: id, group, exempt, subtree (pattern ends with "/") -------------*)
 Rt(id, g, ex, sub) == [id |-> id, grp |-> g, exempt |-> ex, sub |-> sub]
@@ -74,7 +75,7 @@ HasVariant(r, v) ==
   /\ r.sub => v \notin {"slash", "ext", "sub"}          \* these stay inside the subtree handler
   /\ (r.id = "agents") => v \notin {"slash", "sub"}     \* /agents/... is the subtree pattern /agents/
 
-Methods == IF Quick THEN {"GET", "POST", "CONNECT"} ELSE {"GET", "POST", "DELETE", "CONNECT"}
+Methods == IF Tiny THEN {"GET"} ELSE IF Quick THEN {"GET", "POST", "CONNECT"} ELSE {"GET", "POST", "DELETE", "CONNECT"}
 Pres == {"none", "hvalid", "hinvalid", "qvalid", "qinvalid", "basic", "empty", "both"}
    \* no token | Authorization: Bearer <valid|invalid> | ?token=<valid|invalid> | Authorization: Basic <valid token> |
    \* "Bearer " with an empty token and ?token=<invalid> | Bearer <invalid> with ?token=<valid>
@@ -100,11 +101,12 @@ QuickOK(vv, m, p, f) ==
 
 CasesFor(r) ==
   LET vs == {vv \in Variants : HasVariant(r, vv)} IN
-  {c \in {Case(r, vv, m, p, TRUE, f) : vv \in vs, m \in Methods, p \in Pres, f \in Flags} :
-        Quick => QuickOK(c.v, c.m, c.p, c.fl)}
+  {c \in {Case(r, vv, m, p, TRUE, f) : vv \in vs, m \in Methods, p \in IF Tiny THEN {"none", "hvalid"} ELSE Pres,
+                                        f \in IF Tiny THEN {AllOn, AllOff} ELSE Flags} :
+        (Quick => QuickOK(c.v, c.m, c.p, c.fl)) /\ (c.m = "DELETE" => c.v \in {"exact", "cross"})}
   \cup   \* no token configured: the presentation is irrelevant
-  {c \in {Case(r, vv, m, "none", FALSE, f) : vv \in vs, m \in Methods, f \in Flags} :
-        Quick => QuickOK(c.v, c.m, c.p, c.fl)}
+  {c \in {Case(r, vv, m, "none", FALSE, f) : vv \in vs, m \in Methods, f \in IF Tiny THEN {AllOn, AllOff} ELSE Flags} :
+        (Quick => QuickOK(c.v, c.m, c.p, c.fl)) /\ (c.m = "DELETE" => c.v \in {"exact", "cross"})}
 
 Cases == UNION {CasesFor(r) : r \in Routes}
 
